@@ -18,7 +18,7 @@ sys.path.insert(0, os.path.dirname(os.path.dirname(os.path.abspath(__file__))))
 import vlib, corelib
 
 PROP = "C12"
-INV = ["C12_AllCallsReturn", "C12_NoLeakAfterClose", "C12_SingleInstance", "C12_SourceNotPinned",
+INV = ["C12_AllCallsReturn", "C12_NoLeakAfterClose", "C12_SingleInstance", "C12_SourceNotPinned", "C12_NoLeakedLock",
        "C01_RestoreEqualsSource", "C02_EveryTxidIsACommittedState", "C06_CompactedEqualsInputs", "C04_AckMeansReplicaAtLocalPos"]
 MODEL_OPS = {"syncdb": ["syncdb"], "syncdb2": ["syncwait"], "disable": ["disable"], "enable": ["enable"], "snap": ["snapshot"]}
 ALL_OPS = [["syncdb"], ["syncwait"], ["disable"], ["enable"], ["snapshot"], ["checkpoint", "PASSIVE"], ["checkpoint", "TRUNCATE"],
